@@ -28,6 +28,8 @@ JudgePm(e) ==
 JudgeFg(e) ==
     LET ref == (\E k \in 1..Len(e.refP) : e.refP[k] /\ e.refG[k]) /\ (\A k \in 1..Len(e.refA) : ~e.refA[k]) IN
        Fails(e, 0, "RenumberingInvariant", \A k \in 1..Len(e.renum) : e.renum[k] = e.real)
+    \* the rule-condition entry point gives the answer of is_functional_group, in every atom order
+    \o Fails(e, 0, "RuleConditionAgrees", \A k \in 1..Len(e.wrap) : e.wrap[k] = e.real)
     \o Fails(e, 0,
              IF e.graphs /\ e.real = IsGroup(e.mol, e.atom + 1, e.pats, e.grps, e.antis)
              THEN "AgreesWithReference/ring-overlap"     \* the real code does what the transcription of its search does
